@@ -203,9 +203,10 @@ static void plan_gen(HPlan *P, uint64_t seed, const RunOpts *o) {
     else if (m < 85) { P->mode = 1; snprintf(P->prog, sizeof P->prog, "%s", corpus_prog((int)sim_rndn((uint32_t)corpus_nprogs()))); P->tok = (int)sim_rndn(8); }
     else { P->mode = 2; P->churn = (int)sim_rndn((uint32_t)NCHURN); }
     P->junk = sim_rndn(2) ? 1 + (int)sim_rndn(255) : 0; P->movere = (int)sim_rndn(2); P->pad = sim_rndn(2) ? (int)sim_rndn(300) : 0;
+    K.stack_mode = sim_rndn(3) == 0 ? 1 + (int)sim_rndn(256) : 0;
 }
 static void plan_print(HPlan *P, uint64_t seed, Buf *b) {
-    buf_printf(b, "family heap\nseed %llu\nknob max_blocks %llu\n", (unsigned long long)seed, (unsigned long long)K.max_blocks);
+    buf_printf(b, "family heap\nseed %llu\nknob max_blocks %llu\nknob stack_mode %d\n", (unsigned long long)seed, (unsigned long long)K.max_blocks, K.stack_mode);
     if (P->mode == 0) buf_printf(b, "op generated pseed=%llu\n", (unsigned long long)P->pseed);
     else if (P->mode == 1) buf_printf(b, "op corpus prog=%s tok=%d\n", P->prog, P->tok);
     else buf_printf(b, "op churn template=%d\n", P->churn);
